@@ -321,3 +321,75 @@ func FactsC04Msg(f *hc.Facts) {
 
 // squash collapses runs of blanks and tabs (struct-literal alignment) into one space.
 func squash(s string) string { return strings.Join(strings.Fields(s), " ") }
+
+// orderOf returns the given markers sorted by their first position in the (blank-squashed) source of
+// dir.fn; a marker that does not occur is reported as "MISSING:<marker>".
+func orderOf(f *hc.Facts, dir, fn string, markers map[string]string) []string {
+	src := squash(f.FuncSrc(dir, fn))
+	type pm struct {
+		pos  int
+		name string
+	}
+	var ps []pm
+	for name, m := range markers {
+		i := strings.Index(src, m)
+		if i < 0 {
+			ps = append(ps, pm{1 << 30, "MISSING:" + name})
+			continue
+		}
+		ps = append(ps, pm{i, name})
+	}
+	for i := range ps {
+		for j := i + 1; j < len(ps); j++ {
+			if ps[j].pos < ps[i].pos || (ps[j].pos == ps[i].pos && ps[j].name < ps[i].name) {
+				ps[i], ps[j] = ps[j], ps[i]
+			}
+		}
+	}
+	out := make([]string, len(ps))
+	for i, p := range ps {
+		out[i] = p.name
+	}
+	return out
+}
+
+// FactsC04Order emits the statement order of the cipher's control flow (pinned in Props/C04).
+func FactsC04Order(f *hc.Facts) {
+	f.Raw("def encryptMessageOrder : List String := " + strList(orderOf(f, "crypto", "Cipher.encryptMessage", map[string]string{
+		"read-rand-byte":   "io.ReadFull(c.rand, randByte[:])",
+		"append-padding":   "plaintext.Buf = append(plaintext.Buf, make([]byte, countPadding(offset, randByte[0]))...)",
+		"read-padding":     "io.ReadFull(c.rand, plaintext.Buf[offset:])",
+		"msg-key":          "messageKey := MessageKey(k.Value, plaintext.Buf, c.encryptSide)",
+		"keys":             "key, iv := Keys(k.Value, messageKey, c.encryptSide)",
+		"frame":            "AuthKeyID: k.ID, MsgKey: messageKey, EncryptedData: make([]byte, len(plaintext.Buf)),",
+		"ige-encrypt":      "ige.EncryptBlocks(aesBlock, iv[:], msg.EncryptedData, plaintext.Buf)",
+		"offset-is-length": "offset := len(plaintext.Buf)",
+	})) + " -- crypto.Cipher.encryptMessage")
+	f.Raw("def encryptOrder : List String := " + strList(orderOf(f, "crypto", "Cipher.Encrypt", map[string]string{
+		"reset":          "b.Reset() if err := data.EncodeWithoutCopy(b)",
+		"encode-data":    "data.EncodeWithoutCopy(b)",
+		"encrypt":        "msg, err := c.encryptMessage(key, b)",
+		"reset-again":    "b.Reset() if err := msg.Encode(b)",
+		"encode-message": "msg.Encode(b)",
+	})) + " -- crypto.Cipher.Encrypt")
+	f.Raw("def decryptMessageOrder : List String := " + strList(orderOf(f, "crypto", "Cipher.decryptMessage", map[string]string{
+		"key-id-check": "if k.ID != encrypted.AuthKeyID {",
+		"align-check":  "if len(encrypted.EncryptedData)%16 != 0 {",
+		"keys":         "key, iv := Keys(k.Value, encrypted.MsgKey, c.encryptSide.DecryptSide())",
+		"ige-decrypt":  "ige.DecryptAES256Blocks(key[:], iv[:], plaintext, encrypted.EncryptedData)",
+	})) + " -- crypto.Cipher.decryptMessage")
+	f.Raw("def decryptOrder : List String := " + strList(orderOf(f, "crypto", "Cipher.Decrypt", map[string]string{
+		"decrypt-message": "plaintext, err := c.decryptMessage(k, encrypted)",
+		"msg-key":         "msgKey := MessageKey(k.Value, plaintext, side)",
+		"msg-key-check":   "if msgKey != encrypted.MsgKey {",
+		"decode-data":     "msg.DecodeWithoutCopy(&bin.Buffer{Buf: plaintext})",
+		"n":               "n := int(msg.MessageDataLen)",
+		"padding-len":     "paddingLen := len(msg.MessageDataWithPadding) - n",
+		"checks":          "switch {",
+		"return":          "return msg, nil",
+	})) + " -- crypto.Cipher.Decrypt")
+	f.Raw("def decryptFromBufferOrder : List String := " + strList(orderOf(f, "crypto", "Cipher.DecryptFromBuffer", map[string]string{
+		"decode-frame": "msg.DecodeWithoutCopy(buf)",
+		"decrypt":      "return c.Decrypt(k, msg)",
+	})) + " -- crypto.Cipher.DecryptFromBuffer")
+}
